@@ -1,10 +1,103 @@
 /-
   EG.Driver.Styled — model side of the `styled.*` correspondence streams (harness/src/m_styled.rs).
+
+  A shape kind is served by giving its `StyledView` (what the streams observe of a styled shape)
+  as a function of the translation applied to the primitive; the result lines are formatted from
+  the view exactly as `execute` in m_styled.rs formats the real results. Kinds without a model
+  return `none` (printed `skip`). Modelled kinds: `rect` (EG.Model.StyledRect).
 -/
 import EG.Driver.Util
+import EG.Model.StyledRect
+import EG.Model.CallTranslate
 namespace EG.Driver
 open EG
 
-def handleStyled (_stream : String) (_t : Toks) : Option String := none
+/-- What the `styled.*` streams observe of one styled shape. -/
+structure StyledView where
+  calls : List Call     -- `draw()` as target calls
+  pixels : Writes       -- `pixels()`
+  bbox : Rect           -- `bounding_box()` of the styled shape
+  fa : Rect             -- `fill_area().bounding_box()`
+  sa : Rect             -- `stroke_area().bounding_box()`
+
+private def parseOptColor (s : String) : Option Color := if s == "-" then none else some (parseNat s)
+
+private def alignOf : Nat → StrokeAlignment | 0 => .inside | 1 => .center | _ => .outside
+
+/-- style tokens: `fill stroke width align`. -/
+def Toks.style (t : Toks) : Style × Toks :=
+  let (f, t) := t.str
+  let (s, t) := t.str
+  let (w, t) := t.nat
+  let (a, t) := t.nat
+  (⟨parseOptColor f, parseOptColor s, w, alignOf a⟩, t)
+
+/-- `Rec::unbounded()` of the harness. -/
+def unboundedBox : Rect := ⟨⟨-1048576, -1048576⟩, ⟨2097152, 2097152⟩⟩
+
+/-- `small_map`: maps with more than 600 entries print `big:<n>`. -/
+def smallMap (m : List (Pt × Nat)) : String :=
+  if m.length ≤ 600 then fmtPix m else s!"big:{m.length}"
+
+/-- Canonical map left on `R1` (draw_iter only, box `B`) / `R2` (native fills) by a call list. -/
+def mapDefault (B : Rect) (calls : List Call) : List (Pt × Nat) :=
+  canonPix (calls.flatMap (Call.writesDefault B))
+def mapNative (B : Rect) (calls : List Call) : List (Pt × Nat) :=
+  canonPix (calls.flatMap (Call.writesNative B))
+
+/-- Call log of `R1`: every call arrives as `draw_iter` and is logged with all pixels offered
+(also those outside the box). -/
+def fmtLogR1 (B : Rect) (calls : List Call) : String :=
+  if calls.isEmpty then "-"
+  else "|".intercalate (calls.map (fun c => "di:" ++ fmtPix (c.lowerDefault B)))
+
+def shiftPix (d : Pt) (m : List (Pt × Nat)) : List (Pt × Nat) := m.map (fun w => (w.1 + d, w.2))
+
+def b01 (b : Bool) : String := if b then "1" else "0"
+
+/-- Result line of one `styled.*` op from the view of the shape (`view d` = the view of the
+primitive translated by `d`); `t` = the tokens after the style. -/
+def styledResult (stream : String) (view : Pt → StyledView) (t : Toks) : Option String :=
+  let v := view ⟨0, 0⟩
+  match stream with
+  | "styled.paths" =>
+    let (tb, _) := t.rect
+    let m1 := mapDefault tb v.calls
+    let m2 := mapNative tb v.calls
+    let mp := mapDefault tb [Call.drawIter v.pixels]
+    let l1 := fmtLogR1 tb v.calls
+    let l := if l1.length ≤ 4000 then l1 else s!"big:{l1.length}"
+    some s!"r1={smallMap m1} r2eq={b01 (m1 == m2)} pxeq={b01 (m1 == mp)} log={l}"
+  | "styled.bbox" =>
+    let m := mapDefault unboundedBox v.calls
+    let out := m.filter (fun w => !v.bbox.contains w.1)
+    some s!"bb={fmtRect v.bbox} n={m.length} out={out.length}"
+  | "styled.areas" =>
+    let m := mapDefault unboundedBox v.calls
+    some s!"m={smallMap m} fa={fmtRect v.fa} sa={fmtRect v.sa}"
+  | "styled.translate" =>
+    let (d, _) := t.pt
+    let vd := view d
+    let m0 := mapDefault unboundedBox v.calls
+    let md := mapDefault unboundedBox vd.calls
+    some s!"n={m0.length} shifted={b01 (md == shiftPix d m0)} bb={fmtRect v.bbox} bbd={fmtRect vd.bbox}"
+  | _ => none
+
+def rectView (s : Style) (r : Rect) : StyledView :=
+  { calls := StyledRect.drawCalls s r
+    pixels := StyledRect.pixelsList s r
+    bbox := StyledRect.styledBoundingBox s r
+    fa := StyledRect.fillArea s r
+    sa := StyledRect.strokeArea s r }
+
+def handleStyled (stream : String) (t : Toks) : Option String :=
+  if !stream.startsWith "styled." then none else
+  let (kind, t) := t.str
+  match kind with
+  | "rect" =>
+    let (r, t) := t.rect
+    let (s, t) := t.style
+    styledResult stream (fun d => rectView s (r.translate d)) t
+  | _ => none
 
 end EG.Driver
